@@ -110,6 +110,7 @@ pub fn run_directed(name: &str, rng: &mut Rng, n: usize, sink: &mut Sink) -> boo
         "decode_oracle" => decode(rng, n, sink, false),
         "traits" => crate::traitsuite::run(rng, n, sink),
         "serde" => crate::traitsuite::serde(rng, n, sink),
+        "iterglue" => crate::traitsuite::iterglue(rng, n, sink),
         "threads" => crate::threads::run(rng, n, sink),
         _ => return false,
     }
@@ -633,8 +634,39 @@ fn growth(rng: &mut Rng, n: usize, sink: &mut Sink) {
             sink.fail(&["C12"], format!("{count} pushes of a {}-byte char issued {reqs} allocator requests (bound {bound:.1})", c.len()));
         }
     }
+    // the same bound far beyond a megabyte: direct calls, no script (the model would have to carry the megabytes) --
+    // a growth rule that turns additive for large strings shows only here
+    {
+        sink.line("reset");
+        let old_limit = crate::shadow::with(|s| std::mem::replace(&mut s.limit, 1usize << 31));
+        let chunk = "0123456789abcdef".repeat(4096); // 64 KiB
+        for shared_start in [false, true] {
+            let mut s = lean_string::LeanString::from(T20);
+            let keep = if shared_start { Some(s.clone()) } else { None };
+            let before = crate::shadow::with(|s| s.reqs);
+            let chunks = 512usize;
+            for _ in 0..chunks {
+                s.push_str(&chunk);
+            }
+            let reqs = crate::shadow::with(|s| s.reqs) - before;
+            let final_len = (T20.len() + chunks * chunk.len()) as f64;
+            let bound = 3.0 + (final_len / 16.0).ln() / 1.5f64.ln();
+            sink.oracle.evaluations += 1;
+            sink.oracle.detail.push((format!("push_str loop {chunks} x 64 KiB ({}): requests", if shared_start { "shared start" } else { "unique start" }), reqs));
+            if reqs as f64 > bound {
+                sink.fail(&["C12"], format!("{chunks} push_str calls of 64 KiB each (final length {} bytes, {}) issued {reqs} allocator requests (bound {bound:.1})",
+                    final_len as u64, if shared_start { "shared start" } else { "unique start" }));
+            }
+            if s.len() != final_len as usize {
+                sink.fail(&["C01"], format!("after {chunks} push_str calls of 64 KiB the length is {}", s.len()));
+            }
+            drop(s);
+            drop(keep);
+        }
+        crate::shadow::with(|s| s.limit = old_limit);
+    }
     sink.oracle.distinct_nontrivial = sink.oracle.evaluations;
-    sink.oracle.samples.push("push-one-char loops from empty / heap / static / shared starts".into());
+    sink.oracle.samples.push("push-one-char loops from empty / heap / static / shared starts; push_str loops of 64 KiB chunks up to 32 MiB".into());
     // every growth route at many lengths
     for _ in 0..(300 * n.max(1)) {
         sink.line("reset");
